@@ -111,7 +111,13 @@ fn streamrw(f: &Fields) -> String {
         stream.extend_from_slice(&unhex(get(f, &format!("g{}", nf))));
     }
     let seq = stream_seq(stream.clone(), ints::<usize>(get(f, "seg")), num::<usize>(f, "max", 0), num::<usize>(f, "limit", 100000));
-    format!("ok stream={} offs={} lens={} {}", hex(&stream), join(offs.iter()), join(lens.iter()), seq)
+    // the 4-bit sample-rate code and the 3-bit depth code of every frame written (third and fourth header byte), for the model of the writer's choice
+    let rc = if offs.is_empty() {
+        String::new()
+    } else {
+        format!(" ratecodes={} bpscodes={} bscodes={}", join(offs.iter().map(|o| stream[*o + 2] & 0x0F)), join(offs.iter().map(|o| (stream[*o + 3] >> 1) & 7)), join(offs.iter().map(|o| stream[*o + 2] >> 4)))
+    };
+    format!("ok stream={} offs={} lens={}{} {}", hex(&stream), join(offs.iter()), join(lens.iter()), rc, seq)
 }
 
 fn meta_str<M: Metadata>(m: &M) -> String {
